@@ -1,12 +1,20 @@
 #!/bin/sh
-# tools/tryseed.sh <Cxx> <k> [extra props...]: apply a seeded change to /repo, run the checks, undo it
+# tools/tryseed.sh <Cxx> <k> [extra props...]: apply a seeded change to /repo, run the checks, undo it.
+# Each check is first run at the plain quick sizes (VERIF_NO_ESCALATE=1: what the quick generators alone can see);
+# only when that misses is the real quick command run, which escalates to the thorough generators because the anchored
+# source differs from the baseline (tools/anchors.py).
 P=$1; K=$2; shift; shift
 OUT=/tmp/seedout-$P-$K
 git -C /repo status --short | grep -q . && { echo "/repo not clean"; exit 1; }
 git -C /repo apply $OUT/patch.diff || exit 1
 for q in $P "$@"; do
-  echo "== check $q with seeded change $P-$K"
-  timeout 1800 /verif/check $q --tier quick 2>&1 | tail -4
+  echo "== check $q with seeded change $P-$K (quick generators, no escalation)"
+  VERIF_NO_ESCALATE=1 timeout 1800 /verif/check $q --tier quick > /tmp/tryseed.out 2>&1; rc=$?
+  grep -E "VIOLATION|KNOWN|^\[C" /tmp/tryseed.out | head -5
+  if [ $rc -eq 0 ]; then
+    echo "== MISSED by the quick generators; real quick command (escalates on source drift):"
+    timeout 3000 /verif/check $q --tier quick 2>&1 | grep -E "VIOLATION|KNOWN|^\[C" | head -6
+  fi
 done
 git -C /repo checkout -- .
 git -C /repo status --short
